@@ -300,6 +300,15 @@ impl<T: BFlavor> BModel<T> {
         for v in [Some("a"), Some(""), Some("x?y&z"), None] {
             acts.push(BAct::TypedRepo(v.map(str::to_owned)));
         }
+        // values from the specification's vocabulary (default registries of the known types)
+        for v in ["https://registry.npmjs.org", "https://repo.maven.apache.org/maven2", "https://pypi.org", "https://crates.io/", "https://rubygems.org", "https://www.nuget.org"] {
+            acts.push(BAct::TypedRepo(Some(v.to_owned())));
+            acts.push(BAct::Qual("repository_url".to_owned(), v.to_owned()));
+        }
+        // the qualifier vocabulary of the known types with the values the specification calls defaults
+        for (k, v) in [("type", "jar"), ("type", "pom"), ("classifier", ""), ("classifier", "sources"), ("platform", "ruby"), ("arch", "")] {
+            acts.push(BAct::Qual(k.to_owned(), v.to_owned()));
+        }
         acts.push(BAct::TypedCustom(Some("x".to_owned())));
         acts.push(BAct::TypedCustom(None));
         acts.push(BAct::NoQual("BUILD_TAG".to_owned()));
@@ -348,6 +357,9 @@ impl<T: BFlavor> BModel<T> {
             q("checksum", "B:ff,a:0A"),
             q("checksum", "zz"),
             q("CheckSum", "a:00"),
+            q("type", "jar"),
+            q("classifier", ""),
+            q("repository_url", "https://repo.maven.apache.org/maven2"),
             q("k_", "1"),
             q("KZ", "2"),
             q("kz", "3"),
